@@ -548,10 +548,37 @@ impl Observer for Obs {
     fn update(&mut self, c: [usize; 6]) {
         let mut g = self.0.borrow_mut();
         let sh = &mut *g;
+        if c.iter().any(|&x| x > 1 << 40) {
+            // a counter went below zero and wrapped
+            sh.v("C19", "count-range", format!("a progress count is absurd (wrapped below zero): {:?}", c));
+            let phase = sh.phase;
+            sh.updates.push((phase, c));
+            return;
+        }
         let total: usize = c.iter().sum();
         let proj = &sh.loaded;
         let expect = sh.wanted.iter().filter(|u| proj.step(**u).map(|s| !s.phony).unwrap_or(false)).count();
         let phase = sh.phase;
+        if !sh.regen_since_load && !sh.running.is_empty() {
+            // a step with an ancestor executing right now cannot have left the waiting state
+            let running: BTreeSet<usize> = sh.running.iter().map(|r| r.uid).collect();
+            let epoch = sh.loads;
+            let must_wait: Vec<usize> = sh
+                .wanted
+                .iter()
+                .copied()
+                .filter(|u| proj.step(*u).map(|s| !s.phony).unwrap_or(false))
+                .filter(|u| !sh.starts.iter().any(|e| e.uid == *u && e.epoch == epoch))
+                .filter(|u| proj.ancestors(*u).iter().any(|a| running.contains(a)))
+                .collect();
+            if c[0] < must_wait.len() {
+                sh.v("C19", "waiting-count", format!("progress says {} steps are waiting for inputs, but steps {:?} all have an ancestor executing now (counts {:?})", c[0], must_wait, c));
+            }
+            // and everything not waiting, running or finished is at most the rest
+            if c[1] + c[2] + must_wait.len() + running.len() > expect.max(total) {
+                sh.v("C19", "ready-count", format!("progress says {} ready and {} queued while {} run and {:?} must wait, of {} steps", c[1], c[2], running.len(), must_wait, expect));
+            }
+        }
         if total != expect {
             sh.v("C19", "total", format!("progress total {} but {} non-phony steps are wanted (phase {}, counts {:?})", total, expect, phase, c));
         }
